@@ -11,19 +11,19 @@ func c07N(tier string) map[string]int64 {
 
 func init() {
 	Register(&Spec{
-		ID:    "C07",
-		Level: "model_checking",
+		ID:          "C07",
+		Level:       "model_checking",
 		Explanation: "bounded symbolic execution of the four Load functions on (a) N fully symbolic bytes for every truncation length 0..N, (b) the same with an injected I/O error at every position, three delivery chunk sizes and data-with-error delivery, (c) every truncation of well-formed skeleton files with symbolic fields; on every feasible path (success, parse error, recovered panic) the returned stream is drained by harness code and must be non-nil, terminate, equal the source bytes delivered (term-for-term) and surface the injected error. Path feasibility is decided by the solver; the byte equality is syntactic identity of the copied terms on each path",
 		Bounds: func(tier string) map[string]interface{} {
 			n := c07N(tier)
 			return map[string]interface{}{
-				"arbitrary_bytes_N":  map[string]int64{"pngmeta": n["png"], "jpegmeta": n["jpeg"], "webpmeta": n["webp"], "autometa": n["auto"]},
-				"fault_N":            map[string]int64{"pngmeta": n["pngF"], "jpegmeta": n["jpegF"], "webpmeta": n["webpF"], "autometa": n["autoF"]},
-				"fault_positions":    "every e in [0,N] and no fault",
-				"delivery":           "chunk sizes {unlimited,1,3} x final data with/without error",
-				"skeletons":          "C05 skeletons (k<=1 ancillary), every truncation length",
-				"zlib":               "stubbed (harness verifZlibStub): inflate output is 5 fresh symbolic bytes, or open error, or error after output",
-				"outside":            "inputs longer than N (exponential path growth: JPEG 1.6^N), seed files up to 8 KiB, more than one source fault per run",
+				"arbitrary_bytes_N": map[string]int64{"pngmeta": n["png"], "jpegmeta": n["jpeg"], "webpmeta": n["webp"], "autometa": n["auto"]},
+				"fault_N":           map[string]int64{"pngmeta": n["pngF"], "jpegmeta": n["jpegF"], "webpmeta": n["webpF"], "autometa": n["autoF"]},
+				"fault_positions":   "every e in [0,N] and no fault",
+				"delivery":          "chunk sizes {unlimited,1,3} x final data with/without error",
+				"skeletons":         "C05 skeletons (k<=1 ancillary), every truncation length",
+				"zlib":              "stubbed (harness verifZlibStub): inflate output is 5 fresh symbolic bytes, or open error, or error after output",
+				"outside":           "inputs longer than N (exponential path growth: JPEG 1.6^N), seed files up to 8 KiB, more than one source fault per run",
 			}
 		},
 		Runs: func(tier string, seed int64) []*Run {
@@ -42,6 +42,7 @@ func init() {
 				{H: sym.Harness{Pkg: "meta/jpegmeta", Func: "VerifHarness_C07_JPEG_Skeleton"}, ExpectReach: []string{"drained"}, SamplePaths: 4},
 				{H: sym.Harness{Pkg: "meta/webpmeta", Func: "VerifHarness_C07_WebP_Skeleton"}, ExpectReach: []string{"drained"}, SamplePaths: 4},
 				{H: sym.Harness{Pkg: "meta/autometa", Func: "VerifHarness_C07_Auto_Skeleton"}, ExpectReach: []string{"drained"}, SamplePaths: 4},
+				{H: sym.Harness{Pkg: "meta/autometa", Func: "VerifHarness_C07_Auto_Large", Workers: 14}, ExpectReach: []string{"drained"}, SamplePaths: 2},
 				{H: sym.Harness{Pkg: "meta/pngmeta", Func: "VerifHarness_C07_NegControl"}, NegControl: true},
 			}
 		},
